@@ -126,6 +126,9 @@ def plan_seq(pid, tier, seed, ncpu):
         if pid in ("C12", "C13", "C03", "C04", "C10"):
             # un-synced batches on the concurrent cache, judged by the batch model (reads first, then writes in queue order)
             js += seq_jobs(bindirs["dbg"], workdir, known, pid, "batch", scale(tier, 80000, 2000000), 60, seed, 4, prefix="batch")
+        if pid == "C04":
+            # size-aware caches with hundreds of entries: one update that needs more than one eviction batch
+            js += seq_jobs(bindirs["dbg"], workdir, known, pid, "bulk", scale(tier, 240, 6000), 1300, seed, 3, prefix="bulk")
         if pid in ("C05", "C06"):
             # more expired entries pending than one maintenance batch (100 / 500) purges
             js += seq_jobs(bindirs["dbg"], workdir, known, pid, "bulk", scale(tier, 240, 6000), 1300, seed, 4, prefix="bulk")
